@@ -1208,10 +1208,13 @@ def c05_extruded_polygon(rng, kind=None):
         outline, rects = _C05_RECTILINEAR[kind]
         sx, sy = (1.0, 1.0) if rng.random() < 0.5 else tuple(2.0 ** rng.integers(-1, 2, size=2))
         poly = np.array(outline, dtype=float) * [sx, sy]
+        # unit cells with one diagonal direction: a proper (face-to-face) triangulation, no T-junctions
         tris2 = []
         for (x0, y0, x1, y1) in rects:
-            a, b, c, d = (x0 * sx, y0 * sy), (x1 * sx, y0 * sy), (x1 * sx, y1 * sy), (x0 * sx, y1 * sy)
-            tris2 += [[a, b, c], [a, c, d]]
+            for i in range(x0, x1):
+                for j in range(y0, y1):
+                    a, b, c, d = (i * sx, j * sy), ((i + 1) * sx, j * sy), ((i + 1) * sx, (j + 1) * sy), (i * sx, (j + 1) * sy)
+                    tris2 += [[a, b, c], [a, c, d]]
         if rng.random() < 0.5:  # start the outline elsewhere (the first corner may then be reflex)
             poly = np.roll(poly, -int(rng.integers(len(poly))), axis=0)
     elif kind == "star":
@@ -1255,8 +1258,11 @@ def c05_extruded_polygon(rng, kind=None):
         faces.append([i, j, n + j, n + i])
     tets = []
     for t in tris2:
-        a0, b0, c0 = [np.r_[p, z0] for p in t]
-        a1, b1, c1 = [np.r_[p, z1] for p in t]
+        # prism over (a, b, c) with a < b < c lexicographically: the three side quadrilaterals are cut
+        # lower-bottom to higher-top, so neighbouring prisms share whole triangles (proper complex)
+        ts = sorted([tuple(float(x) for x in p) for p in t])
+        a0, b0, c0 = [np.r_[p, z0] for p in ts]
+        a1, b1, c1 = [np.r_[p, z1] for p in ts]
         tets += [[a0, b0, c0, c1], [a0, b0, c1, b1], [a0, b1, c1, a1]]
     return {"kind": "extruded:" + kind, "poly": poly, "tris2": tris2, "z0": z0, "z1": z1,
             "vertices": verts, "faces": faces, "tets": np.array(tets, dtype=float)}
